@@ -397,7 +397,7 @@ def run_grammar(spec, prop, R, tier, batch, stats):
                "annot": "strings" if spec.get("postponed") else "objects", "expd": False}
         batch.trace(spec["id"], ctx.events, cfg)
         stats["events"] += len(ctx.events)
-        if prop == "C11" and "source" not in spec:
+        if prop == "C11":
             # the same grammar counted in expansion-depthing mode (abstract layers, lists and base values cost a level)
             try:
                 with time_limit(10):
